@@ -109,6 +109,9 @@ pub enum ErrorKind {
 
     /// A variable length field was not read or skipped over.
     FieldNotConsumed,
+
+    /// Embedded messages are nested more deeply than the decoder supports.
+    NestingTooDeep,
 }
 
 impl Display for ErrorKind {
@@ -125,6 +128,7 @@ impl Display for ErrorKind {
             ErrorKind::FieldNotConsumed => {
                 write!(f, "variable-length field not consumed or skipped")
             }
+            ErrorKind::NestingTooDeep => write!(f, "messages are nested too deeply"),
         }
     }
 }
